@@ -377,7 +377,7 @@ HARNESSES = [
       bounds="14 types x dots 0..3 x divs 1..960 x tuplet ratios up to 15:15"),
     H("interval", make_interval, _one, budget={"quick": 60, "thorough": 300}, bounds="all 39 interval classes x direction"),
     H("bad_interval", make_bad_interval, _one, budget={"quick": 30, "thorough": 100}, bounds="m/M on perfect, P on imperfect"),
-    H("tuplet", make_tuplet, lambda tier: [{"amax": 5 if tier == "quick" else 12}], budget={"quick": 120, "thorough": 600},
+    H("tuplet", make_tuplet, lambda tier: [{"amax": 4 if tier == "quick" else 12}], budget={"quick": 120, "thorough": 600},
       bounds="actual/normal 1..12 (enumerated by realisation), 5 note types each"),
     H("clef", make_clef, _one, budget={"quick": 30, "thorough": 100}, bounds="7 clef signs"),
     H("ticks", make_ticks, _pm, models=["symnp:partitura.utils.music"], budget={"quick": 90, "thorough": 300},
